@@ -124,7 +124,7 @@ func (s *Session) SendMark(mc *rig.MemConn) int64 {
 // AwaitMark waits for marker n. The wait ends early (false) when the
 // process is provably in a dead state.
 func (s *Session) AwaitMark(mc *rig.MemConn, n int64) bool {
-	deadline := time.Now().Add(WaitLong)
+	wd := rig.NewWatchdog(WaitLong)
 	for {
 		t := time.NewTimer(rig.DeadPollEvery)
 		select {
@@ -147,7 +147,7 @@ func (s *Session) AwaitMark(mc *rig.MemConn, n int64) bool {
 				}
 			}
 		case <-t.C:
-			if time.Now().After(deadline) || rig.ProveDead(rig.DeadInterval).Dead {
+			if wd.Expired() || rig.ProveDead(rig.DeadInterval).Dead {
 				// the marker may have arrived just before everything went quiet: look once more
 				for {
 					select {
@@ -196,7 +196,7 @@ func waitChOpt(ch <-chan struct{}, opt func() rig.DeadOpt) bool {
 			return ds.Dead
 		}
 	}
-	deadline := time.Now().Add(WaitLong)
+	wd := rig.NewWatchdog(WaitLong)
 	for {
 		t := time.NewTimer(rig.DeadPollEvery)
 		select {
@@ -206,7 +206,7 @@ func waitChOpt(ch <-chan struct{}, opt func() rig.DeadOpt) bool {
 		case <-t.C:
 			// a proven dead state ends the wait at once: nothing can ever wake it — unless what is awaited
 			// happened just before everything went quiet (timer and channel both ready): look once more
-			if time.Now().After(deadline) || prove() {
+			if wd.Expired() || prove() {
 				select {
 				case <-ch:
 					return true
@@ -231,13 +231,13 @@ func CloseWatched(conn *client.Conn) bool {
 
 // waitUntil polls cond (cheaply at first) until it holds or the long watchdog expires.
 func waitUntil(cond func() bool) bool {
-	dl := time.Now().Add(WaitLong)
+	wd := rig.NewWatchdog(WaitLong)
 	nextProof := time.Now().Add(rig.DeadPollEvery)
 	for i := 0; ; i++ {
 		if cond() {
 			return true
 		}
-		if time.Now().After(dl) {
+		if i%256 == 255 && wd.Expired() {
 			return false
 		}
 		if time.Now().After(nextProof) {
